@@ -94,7 +94,7 @@ theorem allQ_removeId {b : Nat} :
       simp [queueOf, he]
     · have ih := allQ_removeId (b := b) es hn.2
       have h1 : removeId b (e :: es) = e :: removeId b es := by
-        simp [removeId, List.filter_cons, he]
+        simp [removeId, he]
       rw [h1, allQ_cons, allQ_cons]
       simp only [queueOf, if_neg he]
       -- queueOf b es ++ (e.queue ++ allQ (removeId b es)) ~ e.queue ++ allQ es
@@ -230,7 +230,7 @@ theorem SuspInv.add {s s' : State} (h : SuspInv s) (r : Report) (hr : r.tid = s.
       · rintro (h1 | h1); exact Or.inr h1; exact Or.inl h1
     | false =>
       simp only [Bool.false_eq_true, if_false, h.mem_iff' t]
-      simp [heldTids, List.filter_cons, hh]
+      simp [heldTids, hh]
 
 theorem SuspInv.bump {s s' : State} (h : SuspInv s) (hr : allReports s' = allReports s)
     (ht : s.nextT ≤ s'.nextT) (hs : s'.suspended = s.suspended) : SuspInv s' :=
